@@ -36,6 +36,11 @@ func (e *Engine) verifyFunction(fn *ssa.Function, fc *FuncContract) (c *Ctx) {
 		if k == 0 && fn.Signature.Recv() != nil && isRefType(p.Type()) && (fc == nil || !fc.Nullable[p.Name()]) {
 			c.fact("(not (= " + v.T + " 0))")
 		}
+		if fc != nil {
+			if k, ok := fc.FnParams[p.Name()]; ok {
+				v.FnK = k
+			}
+		}
 		args = append(args, v)
 	}
 	var binds []Val
@@ -147,6 +152,13 @@ func (e *Engine) verifyFunction(fn *ssa.Function, fc *FuncContract) (c *Ctx) {
 		ob := f.oblige("cover:pre", nil, "true", "false")
 		if ob != nil {
 			ob.Expect = "sat"
+		}
+	}
+	if fc != nil {
+		for k, p := range fn.Params {
+			if kk, ok := fc.FnParams[p.Name()]; ok {
+				args[k].FnK = kk
+			}
 		}
 	}
 	entryState := st.clone()
